@@ -50,6 +50,8 @@ pub struct AF<'a> {
     pub arc_gone_at: Option<u64>,
     /// a parked `Sender::send` future existed for this actor at some point
     pub parked: bool,
+    /// the first time the number of handles proper dropped to zero (stamp of the `RefGone` that follows it)
+    pub first_gone_at: Option<u64>,
     pub is_child: bool,
     pub incs: Vec<Inc>,
     pub task_end: Option<(u64, u64, &'static str)>,
@@ -122,6 +124,7 @@ pub fn facts<'a>(cx: &'a Cx) -> BTreeMap<u32, AF<'a>> {
             gone_at: None,
             arc_gone_at: None,
             parked: false,
+            first_gone_at: None,
             is_child: false,
             incs: vec![],
             task_end: a.end,
@@ -302,6 +305,12 @@ pub fn facts<'a>(cx: &'a Cx) -> BTreeMap<u32, AF<'a>> {
         af.parent_release = release.get(&af.tag).copied();
     }
     for af in out.values_mut() {
+        if let Some((s, _)) = af.arc_refs.iter().find(|(_, n)| *n == 0).copied() {
+            af.first_gone_at = ix.ev[(s as usize).min(ix.ev.len())..]
+                .iter()
+                .find(|e| matches!(&e.k, K::RefGone { tag, hk, .. } if *tag == af.tag && *hk != Hk::Fut))
+                .map(|e| e.stamp);
+        }
         if let Some((s, 0)) = arc_last.get(&af.tag).copied() {
             af.arc_gone_at = ix.ev[(s as usize).min(ix.ev.len())..]
                 .iter()
